@@ -107,14 +107,17 @@ def run(tier, seed):
                 if not sid.startswith("e"): continue
                 c = esc[base + int(sid[1:])]; bout = outs.get(("b" + sid[1:], fm))
                 sg = segs_of(out or b"", fmt); bs = segs_of(bout or b"", fmt)
-                if c["slot"] == "title" and c["chname"] == "quot": continue      # a double quote cannot be written inside a double-quoted title
+                if c["slot"] in ("title", "imgtitle") and c["chname"] == "quot": continue      # a double quote cannot be written inside a double-quoted title
+                if c["slot"] in ("url", "imgurl") and c["chname"] in ("quot", "lt", "gt", "bslash", "apos", "lbrace", "rbrace", "bar"): continue     # characters that end or change an address in Markdown itself
                 if c["slot"] == "alt" and c["chname"] in ("bslash", "bar"): continue  # needs a backslash escape in Markdown; the alt attribute shows the description's source spelling (not judged)
-                visible = not (c["slot"] in ("title", "alt") and fmt != "html") and not (c["slot"] == "meta" and fmt == "opml" and False)
+                visible = not (c["slot"] in ("title", "alt", "imgtitle") and fmt != "html") and not (c["slot"] == "imgurl" and fmt == "opml" and False) and not (c["slot"] == "meta" and fmt == "opml" and False)
                 trace.append(dict(e="esc", visible=visible, null=out is None, fmt=fmt, slot=c["slot"], ch=c["ch"], chname=c["chname"], segs=sg, count=len(sg), basecount=len(bs), src=c["src"]))
             else:
                 b = blocks[base + int(sid[1:])]
                 words = [int(x) for x in re.findall(rb"W(\d+)W", out or b"")]
                 trace.append(dict(e="order", null=out is None, fmt="html" if fmt == "html" else "other", fmtname=fmt, ks=b["ks"], words=words, src=b["src"]))
+            if kind == "esc" and esc[base + int(sid[1:])]["slot"] in ("url", "imgurl") and fmt in ("latex", "beamer", "memoir"):
+                continue        # an address is handed to \href / \includegraphics as it is: '$', '{', '%' in it are not markup (the small lexer cannot know)
             if kind == "esc" and esc[base + int(sid[1:])]["slot"] in ("meta", "glossary", "abbrev") and fmt in ("latex", "beamer", "memoir"):
                 continue        # a complete LaTeX document opens \begin{document} inside the \input support file: nesting cannot be judged from this file alone
             ok, evs, _ = nesting(fmt, out or b"")
